@@ -224,7 +224,7 @@ class Cascade:
                 print(f"  📍 Stage {i+1}/{len(self._stages)}: {stage.name}")
 
             # Check checkpoint gate
-            if stage.checkpoint:
+            if stage.checkpoint is not None:
                 try:
                     if not stage.checkpoint(current_signal):
                         if not self.silent:
@@ -445,7 +445,7 @@ class Cascade:
         start_time = time.time()
 
         # Check checkpoint gate (fails closed, as in run())
-        if stage.checkpoint:
+        if stage.checkpoint is not None:
             try:
                 allowed = bool(stage.checkpoint(input_signal))
             except Exception as e:
